@@ -80,10 +80,47 @@ Proof.
       destruct (forallb (fun kv => is_str (fst kv)) l) eqn:E; cbn [negb]; [|reflexivity].
       cbn [bind]. rewrite (dict_items_enc (fun x => gen_encode_object orc n x) (encode_f orc n) l IH E). destruct l; reflexivity.
 Qed.
+(* walking through decode_object without unfolding the flow combinators: cbn reduces them as their heads reduce *)
+Ltac walk :=
+  repeat (cbn -[str_eqb Str str_of_Z Z.pow shift_or dict_get ts_to_dt ts_to_date];
+          match goal with
+          | |- context [match ?x with _ => _ end] =>
+              lazymatch x with
+              | context [match _ with _ => _ end] => fail
+              | _ => destruct x eqn:?
+              end
+          end);
+  cbn -[str_eqb Str str_of_Z Z.pow shift_or dict_get ts_to_dt ts_to_date]; auto; try congruence.
+
+Local Open Scope string_scope.
+Ltac code c := match goal with |- context [str_eqb ?s (Str c)] => destruct (str_eqb s (Str c)) eqn:? end.
+
+Lemma dict_items_dec_fail : forall e (kv : value * value) l,
+  map_result (fun kv_ : value * value => let '(_, _) := kv_ in (Raise e : result (value * value))) (kv :: l) = Raise e.
+Proof. intros e [k x] l. reflexivity. Qed.
+
+Lemma dict_items_dec : forall (rec_ : value -> result value) (f : value -> value) (l : list (value * value)),
+  (forall x, rec_ x = Ok (f x)) ->
+  map_result (fun kv_ : value * value => let '(v_key, v_val) := kv_ in
+              bind (rec_ v_key) (fun a => bind (rec_ v_val) (fun b => Ok (a, b)))) l =
+  Ok (map (fun kv => (f (fst kv), f (snd kv))) l).
+Proof.
+  intros rec_ f l H. induction l as [|[k x] t IH]; [reflexivity|]. cbn [map_result map fst snd]. rewrite IH, !H. reflexivity.
+Qed.
+
 Theorem bridge_decode : forall n v, gen_decode_object orc n v = Ok (decode_f orc n v).
 Proof.
   induction n as [|n IH]; intros v.
-  - destruct v; try (cbn [gen_decode_object decode_f]; crush_enc; fail).
+  - destruct v; try (cbn; reflexivity).
+    + destruct l as [|c args]; [cbn; reflexivity|]. destruct c; try (cbn; reflexivity).
+      cbn -[str_eqb Str str_of_Z Z.pow shift_or dict_get ts_to_dt ts_to_date].
+      code "R"; [destruct args as [|a0 [|a1 rest]]; walk|]. code "r"; [destruct args as [|a0 [|a1 rest]]; walk|].
+      code "D"; [destruct args as [|a0 [|a1 rest]]; unfold p_ts_to_dt; walk|].
+      code "d"; [destruct args as [|a0 rest]; unfold p_ts_to_date; walk|].
+      code "E"; [destruct args as [|a0 rest]; unfold p_decode_args; walk|].
+      code "L"; [destruct args; walk|]. code "l"; [unfold p_reflookup; walk|].
+      code "O"; [destruct args as [|d rest]; [walk|]; destruct d; try (walk; fail); destruct l; walk|].
+      code "P"; [walk|]. code "C"; [walk|]. code "U"; destruct args; walk.
 Abort.
 
 End Bridge.
